@@ -145,6 +145,10 @@ class ClassModel:
                         if len(uses_) > 1 and not writes_:
                             for y in uses_:
                                 E, how = self.extent_of(y, f, A, 1)
+                                if E is not None and 'this.data' in str(E):
+                                    # an extent that is itself a pointer difference (a search result minus the
+                                    # start pointer) is bounded by the search, which this rule does not model
+                                    E, how = None, 'extent is a pointer difference (%s)' % E
                                 out.append((y, A, E, how))
                             continue
                     E, how = self.extent_of(p, f, A)
